@@ -269,6 +269,18 @@ func (c *scase) deliverHS(e *ep, data []byte, sizes []int, eofAfter bool) {
 			}
 		}
 		r.Count("deadline", "after-success:"+last)
+		// the constructor has returned: no handshake deadline may stay armed, in either direction
+		// (a conn that honours deadlines would fail a Read/Write 30 s after the connection was made)
+		if rdl, wdl := obfskit.DeadlineState(e.sc.EventsCopy()); rdl != 0 || wdl != 0 {
+			half := "read"
+			if rdl == 0 {
+				half = "write"
+			} else if wdl != 0 {
+				half = "read and write"
+			}
+			c.violate("deadline-left-armed-after-handshake", "impl-oracle",
+				fmt.Sprintf("real %s %s: the handshake succeeded and the constructor returned, but the %s deadline of the conn is still armed (read +%.0fs, write +%.0fs): later I/O in that direction times out", "obfs2", e.role, half, rdl.Seconds(), wdl.Seconds()))
+		}
 	}
 }
 
